@@ -87,6 +87,9 @@ def evaluate(plan, ctx):
     try:
         sim = simgen.run_simulator(plan, bandits)
     except Exception as e:
+        if any(b["config"]["np"] and b["config"]["np"][1].get("metric") in ("mahalanobis", "seuclidean")
+               for b in plan["bandits"]):
+            return Result(False, ["metric_rejects_data:" + type(e).__name__], skipped=True)
         raise Violation("simulator_raised", "Simulator raised %r" % (e,), bucket="simulator_raised:" + type(e).__name__)
     arms = list(plan["arms"])
     dec, rew = plan["decisions"], plan["rewards"]
